@@ -361,7 +361,9 @@ def r_dom_cmp(ctx, rule='R10.2'):
                 if end in stops:
                     out = 'continue'
                 else:
-                    out = _ord_const(_path_ret(b, blocks, end)) or 'continue-to-end'
+                    rt_ = _path_ret(b, blocks, end)
+                    # `if c != Equal { return c }`: the comparison result itself is returned — under the case v it IS v
+                    out = v if rt_ == tt else (_ord_const(rt_) or 'continue-to-end')
                 rows.setdefault(v, set()).add(out)
         want = {'Less': {'Less'}, 'Greater': {'Greater'}}
         for v in ('Less', 'Greater'):
